@@ -104,6 +104,13 @@ func (e *enc) B(x bool)    { e.I(map[bool]int{false: 0, true: 1}[x]) }
 func (e *enc) S(s string)  { e.I(len(s)); e.u = append(e.u, mon.HashStr(s)) }
 func (e *enc) Fs(xs []float64) {
 	e.I(len(xs))
+	if len(xs) > encLongSlice {
+		// large-input bundles: a long result is encoded by a digest of its
+		// bits (equal bits give equal digests, so nothing is demanded that
+		// the word-by-word comparison would not demand)
+		e.u = append(e.u, mon.NewHasher().Fs(xs).Sum())
+		return
+	}
 	for _, x := range xs {
 		e.F(x)
 	}
@@ -134,6 +141,10 @@ func (e *enc) G(g graph.Graph) {
 	}
 }
 
+// encLongSlice: result slices longer than this are encoded by digest (only the
+// large-input bundles produce them: the other bundles stay below 1300 values).
+const encLongSlice = 4096
+
 func equalU(a, b []uint64) bool {
 	if len(a) != len(b) {
 		return false
@@ -160,6 +171,12 @@ type bundle struct {
 	kdeB                                   *stats.KDE
 	kde0                                   *stats.KDE   // Bandwidth 0: used through private struct copies only
 	big        bool
+	// large-input bundles (seed&31 == 16): sizes drawn per family of entry
+	// points from the former maximum up to 10^4..10^5 (c20Size); top1 / top2
+	// put the linear-time families / the sorting families in the upper half
+	// of their size range
+	huge, top1, top2 bool
+	lxu              []float64 // the LOESS abscissae in shuffled order
 	fregs      [][2]int          // per float backing: offset and length of the data inside it
 	carvedHash map[string]uint64 // hash of each float backing at the moment it was carved
 	damage     []string          // inputs found modified by the library calls made while the bundle was built
@@ -317,9 +334,37 @@ func newBundle(seed uint64) *bundle {
 	// stage; the stages force a share of such seeds
 	big := seed&31 == 0
 	b.big = big
+	// seeds with the low five bits 10000 give LARGE-INPUT bundles: every
+	// family of entry points gets its own size, drawn by c20Size between the
+	// big bundles' maximum and 10^4..10^5 (log-uniform, or at / just beyond a
+	// round number), so that anything the library switches on above a size
+	// cutoff (block processing, parallel or in-place fast paths, scratch
+	// buffers kept for wide windows, caches) runs in every stage. The data are
+	// full-precision numbers of mixed magnitude: a sum of them depends on the
+	// order of the additions. The sorting / bisection families (Samples,
+	// KDEs, U-test samples, graph) are smaller than the linear-time ones
+	// (slices, fits, LOESS windows) to keep the cost moderate.
+	huge := seed&31 == 16
+	b.huge, b.top1, b.top2 = huge, huge && seed&32 != 0, huge && seed&64 != 0
+	reduced := huge && seed&128 != 0 // a quarter of the size ranges (race-detector build, quick tier)
+	size := func(lo, hi int, top bool) int {
+		if reduced {
+			hi /= 4
+		}
+		if top {
+			lo = hi / 2
+		}
+		return c20Size(rng, lo, hi)
+	}
 	n := rng.Range(6, 30)
 	if big {
 		n = rng.Range(100, 400)
+	}
+	nS, nK := n, n // sizes of the Samples and of the KDEs' Sample
+	if huge {
+		n = size(400, 131072, b.top1)
+		nS = size(400, 32768, b.top2)
+		nK = size(400, 8192, b.top2)
 	}
 	vals := func(n int, pos bool) []float64 {
 		xs := make([]float64, n)
@@ -327,6 +372,9 @@ func newBundle(seed uint64) *bundle {
 		pool := make([]float64, k)
 		for i := range pool {
 			pool[i] = math.Round(rng.Norm()*300) / 8
+			if huge {
+				pool[i] = rng.Norm() * 300 * rng.LogUniform(0.01, 100)
+			}
 			if pos {
 				pool[i] = math.Abs(pool[i]) + 0.125
 			}
@@ -342,40 +390,66 @@ func newBundle(seed uint64) *bundle {
 	}
 	b.xs = b.carveF("xs", rng, vals(n, false))
 	b.ys = b.carveF("ys", rng, vals(n, false))
-	w := make([]float64, n)
-	for i := range w {
-		w[i] = float64(1 + rng.Intn(4))
+	mkW := func(n int) []float64 {
+		w := make([]float64, n)
+		for i := range w {
+			w[i] = float64(1 + rng.Intn(4))
+			if huge {
+				w[i] += 0.1 * float64(rng.Intn(7)) // not exactly summable
+			}
+		}
+		return w
 	}
+	w := mkW(n)
 	b.ws = b.carveF("weights", rng, w)
 	b.xpos = b.carveF("positive xs", rng, vals(n, true))
 	nx1, nx2 := rng.Range(3, 20), rng.Range(3, 20)
 	if big {
 		nx1, nx2 = rng.Range(60, 150), rng.Range(60, 150)
 	}
+	if huge {
+		nx1, nx2 = size(150, 8192, b.top2), size(150, 8192, b.top2)
+	}
 	b.x1 = b.carveF("x1", rng, vals(nx1, false))
 	b.x2 = b.carveF("x2", rng, vals(nx2, false))
 	np := rng.Range(3, 15)
+	if huge {
+		np = size(15, 65536, b.top1)
+	}
 	b.p1 = b.carveF("paired x1", rng, vals(np, false))
 	b.p2 = b.carveF("paired x2", rng, vals(np, false))
 	b.grid = b.carveF("grid", rng, []float64{-3, 0.5, 2, -1, 7, 0.5})
-	b.sw = stats.Sample{Xs: b.carveF("Sample(weighted).Xs", rng, vals(n, true)), Weights: b.carveF("Sample(weighted).Weights", rng, w)}
-	b.su = stats.Sample{Xs: b.carveF("Sample(unweighted).Xs", rng, vals(n, false))}
-	wz := make([]float64, n)
-	for i := range wz {
-		wz[i] = float64(rng.Intn(5)) // zeros inside
+	if huge {
+		w = mkW(nS)
 	}
-	wz[n-1] = 0 // and at the end
-	wz[rng.Intn(n-1)] = 2
-	b.swz = stats.Sample{Xs: b.carveF("Sample(zero weights).Xs", rng, vals(n, true)), Weights: b.carveF("Sample(zero weights).Weights", rng, wz)}
-	kx := b.carveF("KDE.Sample.Xs", rng, vals(n, false))
+	b.sw = stats.Sample{Xs: b.carveF("Sample(weighted).Xs", rng, vals(nS, true)), Weights: b.carveF("Sample(weighted).Weights", rng, w)}
+	b.su = stats.Sample{Xs: b.carveF("Sample(unweighted).Xs", rng, vals(nS, false))}
+	mkWZ := func(n int) []float64 {
+		wz := make([]float64, n)
+		for i := range wz {
+			wz[i] = float64(rng.Intn(5)) // zeros inside
+			if huge {
+				wz[i] *= 0.7
+			}
+		}
+		wz[n-1] = 0 // and at the end
+		wz[rng.Intn(n-1)] = 2
+		return wz
+	}
+	wz := mkWZ(nS)
+	b.swz = stats.Sample{Xs: b.carveF("Sample(zero weights).Xs", rng, vals(nS, true)), Weights: b.carveF("Sample(zero weights).Weights", rng, wz)}
+	kx := b.carveF("KDE.Sample.Xs", rng, vals(nK, false))
 	b.kde = &stats.KDE{Sample: stats.Sample{Xs: kx}, Kernel: stats.KDEKernel(rng.Intn(2)), Bandwidth: rng.Uniform(0.5, 20)}
 	lo, hi := stats.Bounds(kx)
+	if huge {
+		wz = mkWZ(nK)
+	}
 	b.kdeB = &stats.KDE{Sample: stats.Sample{Xs: kx, Weights: b.carveF("KDE.Sample.Weights", rng, wz)}, Kernel: stats.GaussianKernel, Bandwidth: rng.Uniform(0.5, 20),
 		BoundaryMin: lo - 1, BoundaryMax: hi + 2}
 	// a KDE whose Bandwidth is still 0 (the lazily filled field is a
 	// documented in-place operation, so callers work on private struct copies;
 	// the Sample's backing arrays are shared)
-	k0 := vals(n, false)
+	k0 := vals(nS, false)
 	for i := range k0 {
 		k0[i] += float64(i%7) * 0.375 // distinct enough for a non-zero IQR and spread
 	}
@@ -414,6 +488,9 @@ func newBundle(seed uint64) *bundle {
 	gn := rng.Range(5, 25)
 	if big {
 		gn = rng.Range(1030, 1300)
+	}
+	if huge {
+		gn = size(1300, 8192, b.top2)
 	}
 	g := make([][]int, gn)
 	for i := 0; i < gn; i++ {
@@ -546,7 +623,79 @@ func newBundle(seed uint64) *bundle {
 		}
 	}
 	b.levels = b.carveF("levels", rng, []float64{0.03, 0.2, 0.41, 0.5, 0.77, 0.9, 0.99, b.y})
+	// the LOESS abscissae once more in shuffled order (distinct, unsorted:
+	// LOESS has to order its private copy, whatever the size)
+	lxu := append([]float64(nil), lx...)
+	rng.ShuffleF(lxu)
+	if sort.Float64sAreSorted(lxu) {
+		lxu[0], lxu[len(lxu)-1] = lxu[len(lxu)-1], lxu[0]
+	}
+	b.lxu = b.carveF("shuffled xs (LOESS)", rng, lxu)
 	return b
+}
+
+// c20Size draws an input size from [lo, hi]: log-uniform in one half of the
+// draws, at / just beyond a round number of that range (a power of two, or
+// 1, 2, 5 times a power of ten; offset -1 .. +2) in the other half.
+func c20Size(rng *mon.Rand, lo, hi int) int {
+	var round []int
+	for p := 1; p <= hi; p *= 2 {
+		if p >= lo {
+			round = append(round, p)
+		}
+	}
+	for d := 1; d <= hi; d *= 10 {
+		for _, m := range []int{1, 2, 5} {
+			if v := m * d; v >= lo && v <= hi {
+				round = append(round, v)
+			}
+		}
+	}
+	n := int(rng.LogUniform(float64(lo), float64(hi)))
+	if rng.Intn(2) == 0 && len(round) > 0 {
+		n = round[rng.Intn(len(round))] + rng.PickI(0, 0, 1, 1, 2, -1)
+	}
+	if n < lo {
+		n = lo
+	}
+	if n > hi {
+		n = hi
+	}
+	return n
+}
+
+// hitSizes records the size classes of a large-input bundle (decided from the
+// inputs alone).
+func (b *bundle) hitSizes(w *mon.W) {
+	if !b.huge {
+		return
+	}
+	w.Hit("large-input-bundle")
+	q := len(b.lx) / 2 // window of the LOESS fit on shuffled abscissae (span 0.5)
+	w.HitIf(len(b.xs) >= 10000, "large:slices>=10^4")
+	w.HitIf(len(b.xs) >= 65536, "large:slices>=2^16")
+	w.HitIf(len(b.su.Xs) >= 5000, "large:Samples>=5000")
+	w.HitIf(len(b.su.Xs) >= 16384, "large:Samples>=2^14")
+	w.HitIf(len(b.kde.Sample.Xs) >= 4096, "large:KDE>=2^12")
+	w.HitIf(q >= 300, "large:LOESS-window>=300")
+	w.HitIf(q >= 5000, "large:LOESS-window>=5000")
+	w.HitIf(len(b.x1) >= 4096 && len(b.x2) >= 4096, "large:U-test-samples>=2^12")
+	w.HitIf(b.g.NumNodes() >= 4096, "large:graph>=2^12")
+	for _, n := range []int{len(b.xs), len(b.su.Xs), len(b.kde.Sample.Xs), len(b.x1), len(b.x2), len(b.p1), b.g.NumNodes()} {
+		for _, d := range []int{0, 1, 2} {
+			m := n - d
+			if m > 0 && (m&(m-1) == 0 || c20Is125(m)) {
+				w.Hit("large:size-at/just-beyond-a-round-number")
+			}
+		}
+	}
+}
+
+func c20Is125(m int) bool {
+	for m%10 == 0 {
+		m /= 10
+	}
+	return m == 1 || m == 2 || m == 5
 }
 
 // refill overwrites the data of every float input array in place with other
@@ -958,7 +1107,21 @@ var c20Inventory = []entry{
 		e.Fs(c)
 		c[0] = -1
 	}},
+	{"reductions called several times in a row", []string{"vec.Sum", "stats.Sample.Sum", "stats.Sample.Weight", "stats.Mean"}, "vec", func(b *bundle, e *enc) {
+		// the same reduction of the same slice, again and again: every value of
+		// the series must come back with the same bits in every later series
+		e.each(6, 5, func(i int) []float64 {
+			return []float64{vec.Sum(b.xs), b.su.Sum(), b.sw.Weight(), b.sw.Sum(), stats.Mean(b.xs)}
+		})
+	}},
 	// ---- fit
+	{"fit.LOESS on shuffled abscissae", []string{"fit.LOESS"}, "fit", func(b *bundle, e *enc) {
+		// all points of the bundle, distinct abscissae in random order: LOESS
+		// has to order a private copy of both slices
+		f := fit.LOESS(b.lxu, b.ys, 1, 0.5)
+		lo, hi := b.lx[0], b.lx[len(b.lx)-1]
+		e.each(3, 1, func(i int) []float64 { return []float64{f(lo + (hi-lo)*(float64(i)+0.5)/3)} })
+	}},
 	{"fit.LinearLeastSquares", []string{"fit.LinearLeastSquares"}, "fit", func(b *bundle, e *enc) {
 		e.Fs(fit.LinearLeastSquares(b.xs, b.ys, b.ws, termsFor()...))
 		e.Fs(fit.LinearLeastSquares(b.xs, b.ys, nil, termsFor()[:2]...))
@@ -1137,6 +1300,9 @@ func c20Digests(seed uint64, rev bool, m int) map[string]uint64 {
 		if i == 2 {
 			sd &^= 31
 		}
+		if i%8 == 4 {
+			sd = c20LargeSeed(sd, 3+i/8) // a large-input bundle, sizes free
+		}
 		b := newBundle(sd)
 		for ej := 0; ej < ne; ej++ {
 			j := ej
@@ -1215,6 +1381,7 @@ func c20One(w *mon.W, seed, otherSeed uint64, only string) {
 	b := newBundle(seed)
 	other := newBundle(otherSeed)
 	w.HitIf(b.big, "big-bundle")
+	b.hitSizes(w)
 	if len(b.damage) > 0 {
 		w.Violate("input-modified", fmt.Sprintf("library calls made while the inputs were set up (fits, closures, dominators, subgraphs on freshly carved arrays) modified: %s", strings.Join(b.damage, ", ")), c20Case{seed, ""})
 	}
@@ -1352,7 +1519,7 @@ func exportedAPI(root string) []string {
 }
 
 func c20Run(r *mon.Run) {
-	r.Rule("input bundles: unsorted slices with ties, weighted/unweighted Samples, KDEs (non-zero Bandwidth), filled histograms and NodeMarks, scales, a random multigraph with unsorted adjacency lists and duplicates plus a shuffled twin, dominator inputs, subgraph selections, Dot labels with every escaped character; every slice carved out of a canaried backing array with spare capacity. Each inventory entry is called on each bundle (guard), the whole inventory is then run on an unrelated bundle, and the entry is called again (determinism). Concurrency stage: race-detector build, 16 goroutines, same shared bundles. Non-trivial = an inventory entry executed on a bundle; distinct by (bundle seed).")
+	r.Rule("input bundles: unsorted slices with ties, weighted/unweighted Samples, KDEs (non-zero Bandwidth), filled histograms and NodeMarks, scales, a random multigraph with unsorted adjacency lists and duplicates plus a shuffled twin, dominator inputs, subgraph selections, Dot labels with every escaped character; every slice carved out of a canaried backing array with spare capacity. Each inventory entry is called on each bundle (guard), the whole inventory is then run on an unrelated bundle, and the entry is called again (determinism). Concurrency stage: race-detector build, 16 goroutines, same shared bundles. Large-input bundles (in the guard, determinism, refill, concurrent, race-detector and cross-process stages alike): each family of entry points gets its own size, log-uniform or at / just beyond a round number (powers of two, 1-2-5 x 10^k; offsets -1..+2): slices, fits and LOESS fits 400..131072 values (LOESS windows 120..98000 points, on sorted and on shuffled abscissae), paired samples to 65536, Samples 400..32768, KDE Samples and U-test samples to 8192, graphs 1300..8192 nodes (a quarter of these ranges in the quick tier's race-detector runs); the first bundle of each stage has every size in the upper half of its range; the data are full-precision values of mixed magnitude (1e-2..1e5, non-integer weights) with ties, so that a sum depends on the order of its additions; each reduction (vec.Sum, Sample.Sum/Weight, Mean) is also called six times in a row. Result slices of more than 4096 values are compared by a 64-bit digest of their bits. Non-trivial = an inventory entry executed on a bundle; distinct by (bundle seed).")
 	r.Assume("documented in-place operations (Sort, Reverse, Nice, SetClamp, Add, Combine, Mark, Unmark, lazily filled KDE Bandwidth) are not in the inventory or are applied to private copies", "the race detector reports races among accesses that both occur unsynchronised in one run")
 	stage := os.Getenv("VERIF_STAGE")
 	for i := range c20Inventory {
@@ -1397,7 +1564,7 @@ func c20Run(r *mon.Run) {
 		r.Serial("cross-process-order", 1, func(w *mon.W, _ int) { w.Note("cross-process-order") })
 		return
 	}
-	r.Gate("big-bundle", "buffers-refilled-in-place")
+	r.Gate("big-bundle", "buffers-refilled-in-place", "large-input-bundle", "large:slices>=2^16", "large:Samples>=2^14", "large:LOESS-window>=5000", "large:KDE>=2^12", "large:U-test-samples>=2^12", "large:graph>=2^12")
 	// the concurrent stage comes first: the process has made no library call yet
 	c20Concurrent(r, false)
 	nb := r.Pick(150, 1500)
@@ -1409,7 +1576,31 @@ func c20Run(r *mon.Run) {
 		c20One(w, seed, seed^0x9e3779b97f4a7c15, "")
 		w.Distinct(seed)
 	})
+	// large-input pass: the same judge on bundles of 10^3..10^5 values; the
+	// first ones have every size in the upper half of its range
+	r.Parallel("guard+determinism-large", r.Pick(4, 40), func(w *mon.W, i int) {
+		seed := c20LargeSeed(w.Rng.Uint64(), i)
+		c20One(w, seed, seed^0x9e3779b97f4a7c15, "")
+		w.Distinct(seed)
+	})
 	c20CrossProcess(r)
+}
+
+// c20LargeSeed turns x into the seed of a large-input bundle. Number 0 of a
+// stage has all sizes in the upper half of their ranges, 1 the slices, fits and
+// LOESS windows, 2 the Samples, KDEs, U-test samples and the graph; from 3 on
+// the sizes are free.
+func c20LargeSeed(x uint64, i int) uint64 {
+	x = x&^255 | 16
+	switch i {
+	case 0:
+		x |= 32 | 64
+	case 1:
+		x |= 32
+	case 2:
+		x |= 64
+	}
+	return x
 }
 
 // c20Concurrent runs the inventory from 16 goroutines on shared bundles. With
@@ -1423,14 +1614,31 @@ func c20Concurrent(r *mon.Run, race bool) {
 	if !race {
 		nb = r.Pick(4, 12)
 	}
-	bundles := make([]*bundle, nb)
+	// large-input bundles among the shared ones. Race-detector build (about
+	// ten times slower): the first has the slices, fits and LOESS windows in
+	// the upper half of their size range (the sorting families free), then the
+	// other way round, then all free; otherwise the first has everything in
+	// the upper half.
+	nl := r.Pick(1, 3)
+	bundles := make([]*bundle, nb+nl)
 	for i := range bundles {
 		sd := mon.NewRand(r.Seed, 0xc0c, uint64(i)).Uint64() | 1
 		if i == 1 {
 			sd &^= 31 // one big bundle among the shared ones
 		}
+		if i >= nb {
+			k := i - nb
+			if race {
+				k++
+			}
+			sd = c20LargeSeed(sd, k)
+			if race && r.Pick(0, 1) == 0 {
+				sd |= 128 // a quarter of the size ranges: the race-detector build is slow
+			}
+		}
 		bundles[i] = newBundle(sd)
 	}
+	nb = len(bundles)
 	ne := len(c20Inventory)
 	// The shared bundles are COLD: nothing has been called on them (nor, in
 	// the race stage, on the library at all) before the goroutines start, so
@@ -1498,6 +1706,9 @@ func c20Concurrent(r *mon.Run, race bool) {
 	}
 	r.Serial(class, 1, func(w *mon.W, _ int) {
 		w.Hit(class)
+		for _, b := range bundles {
+			b.hitSizes(w)
+		}
 		for g := 0; g < G; g++ {
 			for _, p := range panics[g] {
 				w.Violate("panic-concurrent", "concurrent call panicked: "+p, c20Case{0, ""})
